@@ -21,7 +21,8 @@ def plain(x):
         except Exception:
             pass
     if isinstance(x, dict):
-        return {str(k): plain(v) for k, v in x.items()}
+        # keys keep their type (a str key that comes back as an int is a difference)
+        return {(k if isinstance(k, (str, int)) and not isinstance(k, bool) else str(k)): plain(v) for k, v in x.items()}
     if isinstance(x, (list, tuple)):
         return [plain(v) for v in x]
     if hasattr(x, '_value'):
